@@ -13,12 +13,19 @@ RULE = ("reference tree on 4..12 taxa (rooted or not, binary or multifurcating, 
         "last position; both FBP and TBE are run on each case, with Supporter = nil (as the commands) or a fresh "
         "support.NewSupporter() per call; chain cases run two computations in a row (fbp>fbp, tbe>fbp, fbp>tbe, tbe>tbe; "
         "accepted or rejected collections in either position) with ONE shared Supporter value and judge each call on its own "
-        "collection; Supporter.Progress() is compared with the number of trees read; non-trivial = some inner branch has a support strictly between "
+        "collection; Supporter.Progress() is compared with the number of trees read; every call gets a thread count in "
+        "{1, 2, 4, 16}; 'many' cases: 2000..10000 bootstrap trees given as 2..5 small distinct trees with multiplicities "
+        "((repeat k T), judged through the proved closed form of the model on the expanded list) on 2..16 threads; 'family' cases: support.MinTransferDist called "
+        "directly (absent = false and true) on the eleven reference branches outside H of the pair (((a,b),(c,d)),(e,f),H) / "
+        "((H,(c,e)),(a,f),(b,d)) with H a common clade on m = 65537..70000 taxa (also small m); the judge does not rebuild trees "
+        "of that size: it evaluates the definition and the model on the member m = 12 of the family, the distances of these "
+        "branches being independent of m >= 8 (closed form for this family: a test, not a theorem); non-trivial = some inner branch has a support strictly between "
         "0 and 1 (or the collection must be rejected); distinct = distinct case text")
 TRUSTED = ["trees built through NewNode/NewEdge + verif hooks (exact neighbour order); supports read through Edges()/Support()/Right().Tip()",
            "bootstrap trees are fed through a closed buffered channel of tree.Trees as utils.ReadMultiTrees does (no Newick parsing)",
            "a call that does not return within 4 s is reported as a hang"]
-ASSUMPTIONS = ["cpus = 1: the sequential semantics is modelled (threading is property C11)",
+ASSUMPTIONS = ["the sequential semantics is modelled; the same cases are run with cpus in {1, 2, 4, 16} and must give the same "
+               "result (the scheduling itself is property C11)",
                "the model represents the per-bootstrap EdgeIndex as a set of bipartitions; that the hash map (bucket array, FNV hash "
                "codes of the tip names, rehash) behaves so for trees on the same taxa is a theorem "
                "(fbp/tbe_edge_index_is_a_set_of_bipartitions) about the C04 model of hashmap.go / edgeindex.go, itself tied to the "
@@ -181,22 +188,34 @@ def gen(rng, tier):
     def root_tip(ref):
         return len(ref["slots"]) == 2 and any(not kids(ch) for _, ch in kids(ref))
 
-    def emit(ref, boots, kind, reject=False, mode="nil"):
+    def cpus_pick():
+        return rng.choice([1, 1, 1, 2, 4, 16])
+
+    def bsx(b):
+        """a bootstrap tree, or (k, tree) for k consecutive copies"""
+        return [Sym("repeat"), b[0], T(b[1])] if isinstance(b, tuple) else T(b)
+
+    def nb(boots):
+        return sum(b[0] if isinstance(b, tuple) else 1 for b in boots)
+
+    def emit(ref, boots, kind, reject=False, mode="nil", cpus=None):
         """FBP and TBE on one collection; mode nil: Supporter = nil, fresh: a new Supporter per call"""
-        out.append({"sx": sx({"mode": Sym(mode), "ref": T(ref), "boots": [T(b) for b in boots]}),
-                    "meta": {"kind": kind, "mode": mode, "ntips": len(leaves(ref)), "nboot": len(boots),
+        cpus = cpus or cpus_pick()
+        out.append({"sx": sx({"mode": Sym(mode), "cpus": cpus, "ref": T(ref), "boots": [bsx(b) for b in boots]}),
+                    "meta": {"kind": kind, "mode": mode, "cpus": cpus, "ntips": len(leaves(ref)), "nboot": nb(boots),
                              "ref_rooted": len(ref["slots"]) == 2, "ref_root_tip": root_tip(ref),
                              "reject": reject}})
-        if mode == "nil":
+        if mode == "nil" and kind != "many":
             pool.append((ref, boots, reject))
 
     def emit_chain(first, second, algs):
         """two computations in a row with ONE shared Supporter value"""
         (ref1, boots1, rej1), (ref2, boots2, rej2) = first, second
-        out.append({"sx": sx({"mode": Sym("chain"), "alg1": Sym(algs[0]), "alg2": Sym(algs[1]),
+        cpus = cpus_pick()
+        out.append({"sx": sx({"mode": Sym("chain"), "cpus": cpus, "alg1": Sym(algs[0]), "alg2": Sym(algs[1]),
                               "ref": T(ref1), "boots": [T(b) for b in boots1],
                               "ref2": T(ref2), "boots2": [T(b) for b in boots2]}),
-                    "meta": {"kind": "chain", "mode": "chain:%s>%s" % algs, "ntips": len(leaves(ref2)),
+                    "meta": {"kind": "chain", "mode": "chain:%s>%s" % algs, "cpus": cpus, "ntips": len(leaves(ref2)),
                              "nboot": len(boots2), "ref_rooted": len(ref2["slots"]) == 2,
                              "ref_root_tip": root_tip(ref1) or root_tip(ref2), "reject": rej2,
                              "first_reject": rej1}})
@@ -279,4 +298,41 @@ def gen(rng, tier):
             b2[pos] = deco_boot(s2)
             emit(ref, b2, "reject-" + mode + "-" + ("first" if pos == 0 else "last" if pos == k - 1 else "middle"), reject=True,
                  mode="fresh" if rng.random() < 0.25 else "nil")
+
+    # thousands of bootstrap trees (a few small distinct trees with multiplicities) on several threads:
+    # a lost update of a shared counter shows as a wrong exact fraction
+    nmany = {"quick": 6, "thorough": 40, "search": 10}[tier]
+    for it in range(nmany):
+        n = rng.randint(4, 7)
+        nm = rng.choice(NAMESETS)
+        names = [nm(i) for i in range(n)]
+        refsh = g.shape(names, maxdeg=2, rootdeg=rng.choice([2, 3]))
+        if isinstance(refsh, list) and len(refsh) == 2 and any(not isinstance(x, list) for x in refsh):
+            refsh = sh_unroot(refsh)       # keep the known root-tip class out of this stream
+        ref = deco_ref(refsh)
+        total = rng.randint(2000, 10000)
+        kinds = rng.randint(2, 5)
+        cuts = sorted(rng.sample(range(1, total), kinds - 1))
+        mult = [b - a for a, b in zip([0] + cuts, cuts + [total])]
+        boots = []
+        for j, k in enumerate(mult):
+            r = rng.random()
+            if j == 0 or r < 0.4:
+                s2 = sh_rotate(rng, sh_reroot(rng, refsh))          # most lookups succeed
+            elif r < 0.7:
+                s2 = sh_swap(rng, refsh, 1)
+            else:
+                s2 = g.shape(names, maxdeg=rng.choice([2, 3]), rootdeg=min(n, 3))
+            boots.append((k, deco_boot(s2)))
+        emit(ref, boots, "many", cpus=rng.choice([2, 4, 16, 16]), mode=rng.choice(["nil", "nil", "fresh"]))
+
+    # transfer distances on trees with more than 65536 taxa (counters narrower than int wrap there):
+    # support.MinTransferDist called directly on the family (((a,b),(c,d)),(e,f),H) / ((H,(c,e)),(a,f),(b,d));
+    # ~0.7 GB and ~1 s per case with m > 65536
+    fam = {"quick": [(65537, 256)], "search": [(65537, 256), (300, 7)],
+           "thorough": [(65537, 256), (66001, 64), (12, 4), (300, 7), (70000, 1000)]}[tier]
+    for m, gsz in fam:
+        out.append({"sx": sx({"mode": Sym("family"), "m": m, "g": gsz}),
+                    "meta": {"kind": "family", "mode": "family", "cpus": 1, "ntips": m + 6, "nboot": 1,
+                             "ref_rooted": False, "ref_root_tip": False, "reject": False}})
     return out
